@@ -2,8 +2,11 @@
 //! abstract schema / value model, ASN.1 printer, reference UPER codec (X.691), protobuf wire
 //! decoder. See /verif/DESIGN.md.
 pub mod bitmodel;
+pub mod canon;
 pub mod gen;
+pub mod genfront;
 pub mod harness;
+pub mod layout;
 pub mod print;
 pub mod refcodec;
 pub mod refper;
